@@ -955,7 +955,8 @@ func (m *parserModel) mayMoveCursor(in ssa.Instruction) bool {
 // cursor is a test establishing pos < len(input) (or, while summarising under
 // the entry assumption, the function entry itself).
 func (m *parserModel) siteNonEnd(call *ssa.Call) bool {
-	seen := map[*ssa.BasicBlock]bool{}
+	// 1 = being examined (reaching it again means a cycle without a fresh test: refuse), 2 = established
+	seen := map[*ssa.BasicBlock]int{}
 	var back func(b *ssa.BasicBlock, upto int) bool
 	back = func(b *ssa.BasicBlock, upto int) bool {
 		for i := upto - 1; i >= 0; i-- {
@@ -989,13 +990,17 @@ func (m *parserModel) siteNonEnd(call *ssa.Call) bool {
 			if m.progressBlock(p) || (len(p.Succs) == 2 && m.progressEdgeNoNE(p, k)) {
 				continue
 			}
-			if seen[p] {
+			if seen[p] == 2 {
+				continue // a join: this predecessor was already established along another branch
+			}
+			if seen[p] == 1 {
 				return false
 			}
-			seen[p] = true
+			seen[p] = 1
 			if !back(p, len(p.Instrs)) {
 				return false
 			}
+			seen[p] = 2
 		}
 		return true
 	}
